@@ -7,7 +7,7 @@ from . import bv, facts
 from .bv import ZERO, ONE
 from .interp import Interp, Undecided, Diverge, Agg, Enum, Ptr
 from .models import M as MODELS
-from .check_threefish import engine_guard, find, bytes_cell, cell_bytes
+from .check_threefish import engine_guard, find, bytes_cell, cell_bytes, only_beyond_format_limit
 from .check_blake import by_name, with_field
 from spec import groestl as G
 
@@ -147,6 +147,8 @@ def filter_asserts(it, report, rule, ikey):
     bad = False
     for a in it.asserts:
         if any(re.search(rx, a["inst"]) and a["kind"] == kind for rx, kind, _ in ALLOWED_ASSERTS):
+            continue
+        if a["kind"].startswith("overflow") and only_beyond_format_limit(a, ("blocks",)):
             continue
         report.violated(rule, "%s:%s:%s" % (ikey, facts.short(a["inst"], 80), a["kind"]),
                         "%s assertion in %s can fail for some inputs" % (a["kind"], facts.short(a["inst"], 80)))
